@@ -271,5 +271,67 @@ def header_and_set_rules(prog, ctx, rule_bracket, rule_set):
                     ctx.fail(rule_set, "a loop over the comment set uses the character of its round", x.where,
                              "`%s` inside the loop over %s: every round works with the same character, the other members of a set like \"#;\" are never looked for - "
                              "a trailing `; text` on a continuation line stays in the value" % (render(x), sh.describe()), key="comment-set-element")
+    # ... and the other way round: wherever comment[v] is read with a loop index, the loop runs over the comment set (not over the
+    # delimiters or anything else of another length)
+    from sa import loops as _loops2
+    for x in f.walk():
+        if x.k == "ArraySubscriptExpr" and render(x.children[0]) == cpar and x.children[1].strip().k == "DeclRefExpr":
+            lp = next((a for a in x.ancestors() if a.k == "ForStmt"), None)
+            if lp is None:
+                continue
+            sh = _loops2.index_shape(lp)
+            if sh.ok and sh.var == render(x.children[1]) and "strlen(" in (sh.bound or "") and ("strlen(%s)" % cpar) not in sh.bound:
+                m += 1
+                ctx.fail(rule_set, "a loop over the comment set uses the character of its round", x.where,
+                         "`%s` is read in a loop that runs to `%s`: the index follows the length of another string - members of the comment set are skipped or "
+                         "bytes behind it are read" % (render(x), sh.bound), key="comment-set-bound")
     if m == 0:
         ctx.inconclusive(rule_set, "a loop over the comment set uses the character of its round", f.where, "no loop over the comment set found")
+
+
+def one_line_one_role(prog, ctx, rule):
+    """A physical line plays one role: a section header only changes the current section (no entry is stored from it), and a line that was
+    stored as an entry is not stored a second time in the same round of the line loop."""
+    L = landmarks(prog)
+    f, cfg = L.fn, L.cfg
+    ctx.touch(f)
+    sblocks = {cfg.block_of(c): c for c in L.store_calls}
+    # (1) the header: the statement that changes the current section
+    grp = None
+    for c in L.store_calls:
+        a = c.call_args()[L.idx["group"]].strip()
+        if a.k == "DeclRefExpr":
+            grp = a.j["name"]
+    heads = [st for lhs, rhs, st, kind in query.stores(f) if grp and render(lhs) == grp and st.within(L.loop) and rhs is not None and rhs.strip().k == "CallExpr"]
+    for h in heads:
+        hb = cfg.block_of(h)
+        reach = cfg.reachable(hb, avoid_blocks=[L.header])
+        hit = [b for b in sblocks if b in reach and b != hb]
+        if hit:
+            ctx.fail(rule, "a section header stores no entry", h.where,
+                     "after `%s` the same round still reaches %s: the header line is parsed as a key as well" % (render(h)[:50], render(sblocks[hit[0]])[:40]), key="header-falls-through")
+        else:
+            ctx.ok(rule, "a section header stores no entry", h.where, "the round ends after the current section was changed")
+    # (2) one store per round
+    for b, c in sblocks.items():
+        reach = set()
+        for s2 in cfg.blocks[b].succs:
+            if s2 is not None and s2 != L.header:
+                reach |= cfg.reachable(s2, avoid_blocks=[L.header])
+        hit = [b2 for b2 in sblocks if b2 in reach and b2 != b]
+        if hit:
+            # a failure of the first store leaves the function: only ways on after success count
+            v = None
+            up = c.up()
+            if up is not None and up.k == "BinaryOperator" and up.j.get("op") == "=":
+                v = render(up.children[0])
+            succ9 = {(bb, ii): ss for (bb, ii, ss) in cfg.edges()}
+            pos = cfg.index_of(up if v else c)
+            wp = cfg.feasible_reach(hit[0], lambda lit, bb, ii: succ9.get((bb, ii)) == L.header, lambda a: True, start=pos[0], start_index=pos[1] + 1,
+                                    init_facts=({v: False, "=" + v: 0} if v else None))
+            if wp is not None:
+                ctx.fail(rule, "a line is stored once", c.where,
+                         "after this store() the same round reaches %s: the line becomes two entries (or an entry and a continuation of itself)" % render(sblocks[hit[0]])[:40],
+                         key="line-stored-twice:%d" % c.line)
+                continue
+        ctx.ok(rule, "a line is stored once", c.where, "no further store() in the round behind it")
